@@ -11,8 +11,9 @@ import shutil
 import sys
 
 ROOT = os.path.dirname(os.path.dirname(os.path.abspath(__file__)))
-SRC = sys.argv[1] if len(sys.argv) > 1 else "/tmp/mut_out"
-RES = os.path.join(ROOT, "build", "seed_results")
+# usage: collect_seeds.py [<src> <results dir> <a-name> <b-name>] ...   (default: round 1 and, if present, round 2)
+ROUNDS = [("/tmp/mut_out", os.path.join(ROOT, "build", "seed_results"), {"a": "a", "b": "b"}),
+          ("/tmp/mut_out2", os.path.join(ROOT, "build", "seed_results2"), {"a": "c", "b": "d"})]
 DST = os.path.join(ROOT, "seeded")
 
 
@@ -33,24 +34,28 @@ def verdict(c):
 
 def main():
     rows = []
-    for pid in sorted(os.listdir(SRC)):
-        for v in ("a", "b"):
-            d = os.path.join(SRC, pid, v)
-            rj = os.path.join(RES, f"{pid}_{v}.json")
+    for SRC, RES, names in ROUNDS:
+      if not os.path.isdir(SRC):
+          continue
+      for pid in sorted(x for x in os.listdir(SRC) if os.path.isdir(os.path.join(SRC, x))):
+        for v0 in ("a", "b"):
+            v = names[v0]
+            d = os.path.join(SRC, pid, v0)
+            rj = os.path.join(RES, f"{pid}_{v0}.json")
             if not (os.path.isfile(os.path.join(d, "patch.diff")) and os.path.isfile(rj) and os.path.getsize(rj)):
                 continue
             r = json.load(open(rj))
             confirmed = r.get("demo_clean_rc") == 0 and r.get("demo_mutant_rc") not in (0, None) and "passed" in str(r.get("tests_with_mutant")) \
                 and "failed" not in str(r.get("tests_with_mutant"))
             first = (r.get("checks") or {}).get(pid)
-            rr = os.path.join(RES, f"rerun_{pid}_{v}.json")
+            rr = os.path.join(RES, f"rerun_{pid}_{v0}.json")
             after = None
             if os.path.isfile(rr) and os.path.getsize(rr):
                 after = (json.load(open(rr)).get("checks") or {}).get(pid)
             notes = open(os.path.join(d, "notes.md")).read() if os.path.isfile(os.path.join(d, "notes.md")) else ""
             files = sorted(set(re.findall(r"^\+\+\+ b/(\S+)", open(os.path.join(d, "patch.diff")).read(), flags=re.M)))
             meta = {
-                "id": f"{pid}_{v}", "property": pid, "files_changed": files,
+                "id": f"{pid}_{v}", "property": pid, "round": 1 if v in "ab" else 2, "files_changed": files,
                 "written_by": "independent sub-agent given only the property record and a scratch worktree of /repo",
                 "confirmed": confirmed,
                 "confirmation": {"demo_on_clean_tree_rc": r.get("demo_clean_rc"), "demo_with_change_rc": r.get("demo_mutant_rc"),
